@@ -340,6 +340,7 @@ func gostringIssues(rs *Resid, fn *ast.FuncDecl, maxIter int) ([]sideIssue, int,
 		}
 		return true
 	})
+	out = append(out, wholeValueVerbIssues(rs, fn)...)
 	// type names inside printed text come from the package-qualifying (bypass) printer; the Go signature from the ordinary one
 	printed := map[string]bool{}
 	ast.Inspect(fn.Body, func(n ast.Node) bool {
@@ -504,8 +505,113 @@ func runR_C06(c *Ctx) {
 			}
 		}
 	}
+	// runs whose text repeats an earlier run's stand for other types: the operand rule is about the types
+	dups := 0
+	for _, r := range c.R.Runs("gostring") {
+		if r.Outcome != "accepted" || !r.Dup {
+			continue
+		}
+		rs := parseResid(r)
+		if rs.Err != nil || len(rs.Funcs) != 1 {
+			continue
+		}
+		dups++
+		if reportIssues(c, rs, "R-stage2", "", wholeValueVerbIssues(rs, rs.Funcs[0])) {
+			c.Rep.pass("R-stage2")
+		}
+	}
+	c.Rep.analysed("gostring_duplicate_text_runs", dups)
 	c.Rep.analysed("gostring_residuals", n)
 	c.Rep.analysed("printed_text_paths", npaths)
 	c.Rep.Bounds["loop_iterations"] = maxIter
 	c.Rep.floor("R-stage2", 20)
+}
+
+// wholeValueVerbIssues: see the comment inside. Run for every accepted abstract run, also those whose text repeats an earlier
+// run's (the same `return %#v` is emitted for a basic value and, wrongly, for a map of structs).
+func wholeValueVerbIssues(rs *Resid, fn *ast.FuncDecl) []sideIssue {
+	var out []sideIssue
+	seenErr := map[string]bool{}
+	iss := func(n ast.Node, kind, format string, a ...interface{}) {
+		out = append(out, sideIssue{n, fmt.Sprintf(format, a...), kind, ""})
+	}
+	// %#v is handed a whole value only when fmt prints that value as the Go expression of an equal value: a basic value, or a
+	// slice/array/map all of whose components this path has established to be basic. For any other component fmt prints
+	// addresses (pointers), omits the package (never for basics) or calls the component's own GoString method in the middle
+	// of a composite literal (the derived text ends in a newline, so a map key printed that way is followed by `;:`).
+	if sd := newSided(rs, fn); sd != nil {
+		established := func(o *VOpaque) string { return kindOfVal(o) }
+		ast.Inspect(fn.Body, func(n ast.Node) bool {
+			es, ok := n.(*ast.ExprStmt)
+			if !ok {
+				return true
+			}
+			call, format, ok := fprintfOf(rs, es)
+			if !ok || len(call.Args) < 3 {
+				return true
+			}
+			ai := 2
+			for i := 0; i+1 < len(format); i++ {
+				if format[i] != '%' {
+					continue
+				}
+				if format[i+1] == '%' {
+					i++
+					continue
+				}
+				j := i + 1
+				for j < len(format) && strings.ContainsRune("#+-0 ", rune(format[j])) {
+					j++
+				}
+				verb := format[i : j+1]
+				arg := ast.Expr(nil)
+				if ai < len(call.Args) {
+					arg = call.Args[ai]
+				}
+				ai++
+				i = j
+				if verb != "%#v" || arg == nil {
+					continue
+				}
+				o := sd.valOfExpr(arg)
+				if o == nil {
+					continue
+				}
+				u := underlyingVal(o)
+				comp := func(attr string) string {
+					if u == nil {
+						return ""
+					}
+					if c, ok := u.attrs[attr].(*VOpaque); ok {
+						return established(c)
+					}
+					return ""
+				}
+				bad := ""
+				switch established(o) {
+				case "*types.Map":
+					if comp("Key") != "*types.Basic" {
+						bad = "a map whose key type this path has not established to be basic"
+					} else if comp("Elem") != "*types.Basic" {
+						bad = "a map whose element type this path has not established to be basic"
+					}
+				case "*types.Slice", "*types.Array":
+					if comp("Elem") != "*types.Basic" {
+						bad = "a list whose element type this path has not established to be basic"
+					}
+				case "*types.Pointer", "*types.Struct", "*types.Chan", "*types.Signature", "*types.Interface":
+					bad = "a value of kind " + strings.TrimPrefix(established(o), "*types.")
+				}
+				if bad != "" {
+					k := "whole:" + bad
+					if !seenErr[k] {
+						seenErr[k] = true
+						iss(call, "whole-value-verb", "prints %s (%s) as a whole with %%#v: for a component that is a pointer, a struct of another package or a type with its own GoString method fmt does not print the Go expression of an equal value (a GoString ending in a newline inside a composite literal does not even parse)", exprStr(arg), bad)
+					}
+				}
+			}
+			return true
+		})
+	}
+	return out
 }
